@@ -32,6 +32,9 @@ std::vector<std::pair<void *, size_t>> snapshot(); void forget_all();
 }
 extern u64 g_syslog_calls;
 
+// ---- sequential lock book-keeping (wrap.cc)
+void seq_locks_enable(bool on); int seq_locks_held(); void seq_locks_reset();
+
 // ---- scheduler (sched.cc)
 bool sched_active();
 int sched_lock(void *l, int exclusive);
